@@ -434,6 +434,10 @@ func TestCheck(t *testing.T) {
 			r.Require(r.Counter("fwd_cluster_transport_resets")+r.Counter("fwd_cluster_redelivered_swapped")+r.Counter("fwd_cluster_recreated") >= 6 && r.Counter("forwarded_after_fwd_cluster_config_event") >= int64(n/20),
 				"the forwarding cluster hardly lived through config events")
 			r.Require(r.Counter("forwarded_with_client_address_headers") >= int64(n/20) && r.Counter("forwarded_upgrade_with_client_address_headers") >= int64(n/400), "too few forwarded requests carried X-Real-Ip-style headers")
+			r.Require(r.Counter("terminated_unparsable_api_path") >= int64(n/100), "too few API-shaped paths the request-info filter cannot parse")
+			r.Require(r.Counter("request_trailers_checked") >= int64(n/200), "too few request trailers were checked")
+			r.Require(r.Counter("escaped_slash_in_path_judged") >= int64(n/100), "too few paths with %2F were judged")
+			r.Require(r.Counter("request_body_over_2MiB_forwarded") >= 2 && r.Counter("reply_body_over_2MiB_relayed") >= 2, "no body above 2 MiB crossed the gateway")
 			r.Require(r.Counter("upstream_copies_beyond_first_judged") >= 3, "no retried copy of a request was seen upstream")
 			r.Require(r.Counter("expect_continue_got_100") >= 3, "Expect: 100-continue was never answered with an interim 100")
 			r.Require(r.Counter("concurrent_batches_with_redeliver")+r.Counter("concurrent_batches_with_redeliver-swapped") >= int64(nb/10) && r.Counter("concurrent_batches_with_reset-transport") >= int64(nb/25), "too few batches raced with a config event")
@@ -484,6 +488,8 @@ func witness(i int, x *Exchange, resp *bed.RawResponse, seen *seenUp, extra map[
 
 // seenUp is what an upstream (raw or net/http stub) recorded of one request.
 type seenUp struct {
+	Host                  string
+	Trailer               http.Header
 	Method, Target, Proto string
 	Headers               []bed.RawHeader
 	BodyLen               int64
@@ -492,11 +498,11 @@ type seenUp struct {
 }
 
 func fromRaw(s bed.RawSeen) seenUp {
-	return seenUp{Method: s.Method, Target: s.Target, Proto: s.Proto, Headers: s.RawHeaders, BodyLen: s.BodyLen, BodySHA: s.BodySHA, BodyErr: s.BodyErr, Complete: s.Complete}
+	return seenUp{Host: s.Host, Trailer: s.Trailer, Method: s.Method, Target: s.Target, Proto: s.Proto, Headers: s.RawHeaders, BodyLen: s.BodyLen, BodySHA: s.BodySHA, BodyErr: s.BodyErr, Complete: s.Complete}
 }
 
 func fromH2(s bed.Seen) seenUp {
-	u := seenUp{Method: s.Method, Target: s.RequestURI, Proto: s.Proto, BodyLen: s.BodyLen, BodySHA: s.BodySHA, Complete: s.BodySHA != ""}
+	u := seenUp{Host: s.Host, Trailer: s.Trailer, Method: s.Method, Target: s.RequestURI, Proto: s.Proto, BodyLen: s.BodyLen, BodySHA: s.BodySHA, Complete: s.BodySHA != ""}
 	var keys []string
 	for k := range s.Header {
 		keys = append(keys, k)
@@ -788,6 +794,7 @@ func prepForwarded(r *vkit.R, tb *testbed, i int, g *vkit.Rand, o fwdOpts) *fwd 
 			x.Class = "forwarded-body-then-big-reply"
 			x.Req.Method = g.Pick([]string{"POST", "PUT", "PATCH"})
 			x.Req.Body, x.Req.Chunked, x.Req.SendCL = g.Bytes(g.Range(1, 3000)), false, true
+			x.Req.Trailers = nil
 			x.ReqBody = len(x.Req.Body)
 			x.Gzip, x.PlainBody = false, nil
 			var hs []bed.RawHeader
@@ -913,8 +920,7 @@ func judgeForwarded(r *vkit.R, tb *testbed, f *fwd, respp *bed.RawResponse) {
 	}
 	if len(seen) == 0 {
 		ct := resp.Header.Get("Content-Type")
-		if excludedRequestInfo500(&resp, x.Req.Method) {
-			r.Count("excluded_unparsable_api_path", 1)
+		if unparsableAPIPath(r, i, x, &resp) {
 			return
 		}
 		if x.HostileQ != "" && resp.Status == 400 {
@@ -957,6 +963,12 @@ func judgeForwarded(r *vkit.R, tb *testbed, f *fwd, respp *bed.RawResponse) {
 		r.Count("forwarded_over_tls_h2", 1)
 	}
 	r.Count("request_body_bytes", len(x.Req.Body))
+	if len(x.Req.Body) > 2<<20 {
+		r.Count("request_body_over_2MiB_forwarded", 1)
+	}
+	if len(x.Reply.Body) > 2<<20 {
+		r.Count("reply_body_over_2MiB_relayed", 1)
+	}
 	if x.Req.Chunked {
 		r.Count("chunked_requests", 1)
 	}
@@ -999,7 +1011,7 @@ func judgeForwarded(r *vkit.R, tb *testbed, f *fwd, respp *bed.RawResponse) {
 		cd = append(cd, qd...)
 		if copyNo == 0 {
 			if obs.pct2f {
-				r.Count("observed_pct2F_in_path_decoded_not_judged", 1)
+				r.Count("escaped_slash_in_path_judged", 1)
 			}
 			if !obs.canonical {
 				r.Count("observed_noncanonical_path_encoding", 1)
@@ -1023,10 +1035,28 @@ func judgeForwarded(r *vkit.R, tb *testbed, f *fwd, respp *bed.RawResponse) {
 			cd = append(cd, diff{"request-body/" + feat, fmt.Sprintf("request body: client sent %d bytes (sha %s), upstream received %d bytes (sha %s)", len(x.Req.Body), sha(x.Req.Body)[:12], s.BodyLen, s.BodySHA[:12])})
 		}
 		cd = append(cd, compareRequestHeaders(x, s.Headers, f.peerIP, upgrade, h2wire)...)
+		// Host is an end-to-end header field like any other (quantifier audit): the upstream sees the name the client used
+		if s.Host != x.Req.Host {
+			cd = append(cd, diff{"request-header/changed/host", fmt.Sprintf("Host: client sent %q, upstream received %q", x.Req.Host, s.Host)})
+		}
+		// so are the fields of a chunked request's trailer part (HTTP/2 client requests and HTTP/1.0 ones carry none here)
+		if s.Complete && len(x.Req.Body) == 0 && len(x.Req.Trailers) > 0 {
+			// net/http in the gateway's transport probes a body of unknown length and sends an empty one as "no body"
+			// (Content-Length: 0), which has no trailer part
+			if copyNo == 0 {
+				r.Count("request_trailers_after_empty_body_not_judged", 1)
+			}
+		} else if s.Complete {
+			for _, tr := range x.Req.Trailers {
+				if copyNo == 0 {
+					r.Count("request_trailers_checked", 1)
+				}
+				if got := s.Trailer.Values(tr.Name); len(got) != 1 || got[0] != tr.Value {
+					cd = append(cd, diff{"request-trailer/lost", fmt.Sprintf("request trailer %s: %q reached the upstream as %q", tr.Name, tr.Value, got)})
+				}
+			}
+		}
 		ds = append(ds, cd...)
-	}
-	if len(x.Req.Trailers) > 0 {
-		r.Count("observed_request_trailers", 1)
 	}
 	if x.Via == "expect-continue" {
 		got100 := false
@@ -1269,12 +1299,10 @@ func runTerminated(r *vkit.R, tb *testbed, i int, g *vkit.Rand, big bool) {
 	w := func() map[string]interface{} {
 		return witness(i, x, &resp, nil, map[string]interface{}{"class": class})
 	}
-	if excludedRequestInfo500(&resp, x.Req.Method) {
-		// the generic request-info filter is the outermost one: it answers before any kubegateway code (excluded, counted);
-		// non-forwarding is still judged below
-		r.Count("excluded_unparsable_api_path", 1)
+	if unparsableAPIPath(r, i, x, &resp) {
+		// (the request-info filter is the outermost one: it answers whatever the class is; non-forwarding is judged too)
 		if after != before || afterP != beforeP {
-			r.Violation("C04/terminated/"+class+"/forwarded", "a request answered by the generic request-info filter reached an upstream", w())
+			r.Violation("C04/terminated/"+class+"/forwarded", "a request answered by the request-info filter reached an upstream", w())
 		}
 		return
 	}
@@ -1305,11 +1333,14 @@ func runTerminated(r *vkit.R, tb *testbed, i int, g *vkit.Rand, big bool) {
 		r.Count("terminated_502-upstream-refused_already_unhealthy_503", 1)
 	}
 	if class == "500-malformed-impersonation" {
-		// answered by the generic InternalError helper in plain text; its format is not part of the statement (DESIGN C02/C04)
+		// Quantifier audit: the impersonation filter is the gateway's own code and it terminates the request; "every request
+		// the gateway terminates itself is answered with a well-formed API Status whose code tells why". Which 4xx/5xx code
+		// is not fixed by the statement; the object is.
 		if resp.Status < 400 {
 			r.Violation("C04/terminated/"+class+"/status", fmt.Sprintf("malformed impersonation answered %d", resp.Status), w())
+			return
 		}
-		return
+		wantStatus = resp.Status
 	}
 	if resp.Status == 400 && x.HostileQ != "" {
 		// Two reasons to refuse at once: a query string the gateway cannot parse faithfully (';', malformed escape) on a
@@ -1368,6 +1399,45 @@ func max0(a int) int {
 		return 0
 	}
 	return a
+}
+
+// stubsSeen: the stubs of this gateway that hold a record of request id.
+func (tb *testbed) stubsSeen(id string) []*bed.RawStub {
+	var out []*bed.RawStub
+	for _, s := range tb.stubs() {
+		if len(s.Get(id)) > 0 {
+			out = append(out, s)
+		}
+	}
+	return out
+}
+
+// unparsableAPIPath: an API-shaped path the request-info filter cannot parse (/api/v1/proxy, /apis/apps/v1/watch) is
+// terminated by the gateway's handler chain - cmd/kube-gateway/app/proxy.go puts the filter there -, so the answer must
+// be a well-formed Status like every other terminated one (quantifier audit: this used to be excluded). Reports whether
+// the answer is that filter's (judged here).
+func unparsableAPIPath(r *vkit.R, i int, x *Exchange, resp *bed.RawResponse) bool {
+	if !strings.HasPrefix(x.Req.Target, "/api/v1/proxy") && !strings.HasPrefix(x.Req.Target, "/apis/apps/v1/watch") {
+		return false
+	}
+	if resp.Header.Get("X-Verif-Stub") != "" || resp.Status < 400 {
+		return false
+	}
+	r.Count("terminated_unparsable_api_path", 1)
+	if x.Req.Method == "HEAD" {
+		return true
+	}
+	ct := resp.Header.Get("Content-Type")
+	st, kind, err := decodeStatus(ct, resp.Body)
+	switch {
+	case err != nil || !(strings.HasPrefix(ct, "application/") || ct == ""):
+		r.Violation("C04/terminated/unparsable-api-path/body-not-a-status", fmt.Sprintf("%s %s was terminated by the gateway's request-info filter with %d and Content-Type %q: not a v1 Status: %.160q", x.Req.Method, x.Req.Target, resp.Status, ct, resp.Body), witness(i, x, resp, nil, nil))
+	case kind != "Status" || st.Status != metav1.StatusFailure || int(st.Code) != resp.Status:
+		r.Violation("C04/terminated/unparsable-api-path/status-object", fmt.Sprintf("Status object kind=%q status=%q code=%d in an HTTP %d answer", kind, st.Status, st.Code, resp.Status), witness(i, x, resp, nil, nil))
+	default:
+		r.Count("terminated_unparsable_api_path_status_decoded", 1)
+	}
+	return true
 }
 
 // excludedRequestInfo500 recognises the answer of the generic (k8s.io/apiserver) request-info filter to an API-shaped
